@@ -476,7 +476,8 @@ def check(ctx):
     # size check chain
     spf = m.func(CF, 'Crazyflie.send_packet')
     g = cfg_of(spf)
-    tx = g.find(lambda n: method_call(n, 'send_packet') and norm(n.func.value) == 'self.link')
+    from .c02 import link_names
+    tx = g.find(lambda n: method_call(n, 'send_packet') and norm(n.func.value) in link_names(spf))
     ctx.need(tx, 'Crazyflie.send_packet: no transmission through self.link')
     ok = all(fact_key('pk.is_data_size_valid()', True) in g.fact_keys_at(n) for n, _ in tx)
     rs = [n for n in g.nodes if n.kind == 'raise' and fact_key('pk.is_data_size_valid()', False) in g.fact_keys_at(n)]
